@@ -22,8 +22,9 @@ CHAIN_RULE = ("chain suite: histories of 14+ operations on a real, fully wired n
               "through the repository's own decoder (a settings document is built from the intended values; interval and timeout differ), "
               "spendable outputs are observed through the node's own utxos handler, honest neighbors answer through their own blocks handler, "
               "signature and address oracles are computed with crypto/ecdsa and go-ethereum directly. Generated situations include signatures "
-              "of the same key replayed on another reference, leading zero-valued outputs, order-dependent pooled pairs (swap mode) and pooled "
-              "transactions that an adopted block makes unproducible (yield race). A history is distinct by its "
+              "of the same key replayed on another reference, leading zero-valued outputs, order-dependent pooled pairs and income-juggling triples (swap mode), pooled "
+              "transactions that an adopted block makes unproducible (yield race), honest neighbors answering in indented JSON, candidates with a "
+              "correctly signed second spend of an input, a wallet whose public key has a coordinate starting with a zero byte. A history is distinct by its "
               "sequence of (operation kind, outcome).")
 
 CHECKS = {
